@@ -69,8 +69,8 @@ CLAIMED["C06"] = ("other", "Mixed: (proof, structured versions) every clause for
                   "UnionSpecifier.__str__ joins one range text per range in order.", "5 C06", "A-VER, A-PKG-PARSE; finding D3",
                   "contract-based deductive verification over structured versions (T-VER) + bounded text round trip")
 CLAIMED["C04"] = ("other", "Mixed: (proof) leaf translation: _from_pkg_specifier returns, for each of >,>=,<,<=,==,!=,~=,==P.*,!=P.* (with/without epoch), exactly the interval(s) PEP 440 assigns (structured versions), === gives ArbitrarySpecifier; the algebra between "
-                  "leaves is C01/C05; (bounded) membership of final releases against packaging.SpecifierSet.contains for leaves and expression trees of depth <= 3, contains() path (through str()), === leaves raise ValueError or give the right set.",
-                  "5 C04", "A-VER, A-PKG-PARSE, A-PKG-CONTAINS (bounded); C01/C05/C06 contracts; finding D3 (contains() goes through the ~= rendering)",
+                  "leaves is C01/C05, contains() is membership in the rendered text - the operator obligations of C01 and the rendering obligations of C06 are re-established as premises on every run; (bounded) membership of final releases against packaging.SpecifierSet.contains for leaves and expression trees of depth <= 3, contains() path (through str()), === leaves raise ValueError or give the right set.",
+                  "5 C04", "A-VER, A-PKG-PARSE, A-PKG-CONTAINS (bounded); C05 contracts (C01 and C06 re-established as premises); finding D3 (contains() goes through the ~= rendering)",
                   "contract-based deductive verification of the leaf translation (T-VER) + bounded comparison with packaging")
 CLAIMED["C07"] = ("other", "Mixed: (proof) MultiMarker.__str__ / MarkerUnion.__str__ produce a join whose operands parse at the right precedence (no unparenthesised or-join or <empty>/'' token inside an and-join) and mean the children, "
                   "for all compounds in normal form; an atom rendered by MarkerExpression.__str__ and read back (packaging's triple, then the real _build_markers) is the same atom, for the ten operators and both operand orders, and the quote character around the literal does not occur in it (SMT strings); the premises C02 (operator laws) and C03 (parser) are re-established on every run; "
